@@ -25,8 +25,10 @@ def sh(cmd, cwd=None, env=None, timeout=3600):
 def main():
     src, sid = sys.argv[1], sys.argv[2]
     props = sys.argv[3:]
-    wt = "/tmp/confirm_wt"
-    env = dict(os.environ, CARGO_TARGET_DIR="/tmp/confirm_target", CARGO_NET_OFFLINE="true")
+    # lanes: several confirmations side by side, each with its own scratch worktree / target dir / checked tree
+    wt = os.environ.get("CONFIRM_WT", "/tmp/confirm_wt")
+    REPO = os.environ.get("CONFIRM_REPO", "/repo")       # the tree the patch is applied to for our checks (default: /repo itself)
+    env = dict(os.environ, CARGO_TARGET_DIR=os.environ.get("CONFIRM_TARGET", "/tmp/confirm_target"), CARGO_NET_OFFLINE="true")
     sh("git -C /repo worktree remove --force %s" % wt)
     shutil.rmtree(wt, ignore_errors=True)
     rc, out = sh("git -C /repo worktree add -q --detach %s HEAD && cp /repo/Cargo.lock %s/" % (wt, wt))
@@ -58,21 +60,21 @@ def main():
         shutil.rmtree(wt, ignore_errors=True)
     # our checks
     checks = {}
-    rc, o = sh("git -C /repo status --porcelain")
+    rc, o = sh("git -C %s status --porcelain --untracked-files=no" % REPO)
     if o.strip():
-        print("refusing: /repo has uncommitted changes:\n" + o)
+        print("refusing: %s has uncommitted changes:\n" % REPO + o)
         return 2
-    rc, o = sh("git -C /repo apply %s" % os.path.join(src, "patch.diff"))
+    rc, o = sh("git -C %s apply %s" % (REPO, os.path.join(src, "patch.diff")))
     if rc:
-        ran.append("patch does not apply to /repo: " + o[-300:])
+        ran.append("patch does not apply to %s: " % REPO + o[-300:])
     else:
         try:
             for p in props:
-                rc, o = sh("./check %s --tier quick" % p, cwd=V, timeout=3000)
+                rc, o = sh("./check %s --tier quick" % p, cwd=V, timeout=3000, env=dict(os.environ, HV_REPO=REPO))
                 lines = [l for l in o.splitlines() if l.startswith(("VIOLATION", "KNOWN-FINDING", "CANNOT-DECIDE", p))]
                 checks[p] = {"exit": rc, "lines": lines[:8]}
         finally:
-            sh("git -C /repo checkout -- .")
+            sh("git -C %s checkout -- ." % REPO)
     result["checks"] = checks
     result["detected_by"] = [p for p, c in checks.items() if c["exit"] == 1]
     result["undecided_by"] = [p for p, c in checks.items() if c["exit"] == 2]
